@@ -5,6 +5,7 @@ import (
 	"encoding/binary"
 	"fmt"
 	"reflect"
+	"sync"
 	"testing"
 	"time"
 	"unsafe"
@@ -487,6 +488,125 @@ var c17Ref = &vh.Prop[c17RefCase]{
 
 func TestC17RecursiveTagged(t *testing.T) { c17Ref.Check(t, vh.N(3000, 20000)) }
 
-func init() { registrars = append(registrars, c17.Register, c17Ref.Register) }
+func init() { registrars = append(registrars, c17.Register, c17Ref.Register, c17Pkg.Register) }
 
 func TestC17(t *testing.T) { c17.Check(t, vh.N(15000, 40000)) }
+
+// Package-level registration: plenc.RegisterCodec / RegisterCodecWithTag act on the
+// package-level default instance - and on nothing else. The types are used by this
+// sub-check only, so the (process-wide) registration cannot disturb other checks.
+type c17PkgPlain struct {
+	N int `plenc:"1"`
+}
+type c17PkgTagged struct {
+	N int `plenc:"1"`
+}
+type c17PkgHolder struct {
+	A c17PkgPlain   `plenc:"1"`
+	B c17PkgTagged  `plenc:"2,c17pkg"`
+	C []c17PkgPlain `plenc:"3"`
+}
+
+// c17PkgCodec writes N+k as a plain varint (a struct would be length-delimited).
+type c17PkgCodec struct {
+	k   int
+	typ reflect.Type
+}
+
+func (c c17PkgCodec) Omit(ptr unsafe.Pointer) bool { return false }
+func (c c17PkgCodec) New() unsafe.Pointer          { return reflect.New(c.typ).UnsafePointer() }
+func (c c17PkgCodec) WireType() plenccore.WireType { return plenccore.WTVarInt }
+func (c c17PkgCodec) Descriptor() plenccodec.Descriptor {
+	return plenccodec.Descriptor{Type: plenccodec.FieldTypeUint}
+}
+func (c c17PkgCodec) Size(ptr unsafe.Pointer, tag []byte) int {
+	return len(tag) + plenccore.SizeVarUint(uint64(*(*int)(ptr)+c.k))
+}
+func (c c17PkgCodec) Append(data []byte, ptr unsafe.Pointer, tag []byte) []byte {
+	data = append(data, tag...)
+	return plenccore.AppendVarUint(data, uint64(*(*int)(ptr)+c.k))
+}
+func (c c17PkgCodec) Read(data []byte, ptr unsafe.Pointer, wt plenccore.WireType) (int, error) {
+	v, n := plenccore.ReadVarUint(data)
+	if n <= 0 {
+		return 0, fmt.Errorf("corrupt")
+	}
+	*(*int)(ptr) = int(v) - c.k
+	return n, nil
+}
+
+var c17PkgOnce sync.Once
+
+type c17PkgCase struct {
+	A, B int
+	C    []int
+}
+
+var c17Pkg = &vh.Prop[c17PkgCase]{
+	ID: "C17", Name: "package-level-registration",
+	Gen: func(t *rapid.T) c17PkgCase {
+		return c17PkgCase{A: rapid.IntRange(0, 1000).Draw(t, "a"), B: rapid.IntRange(0, 1000).Draw(t, "b"), C: rapid.SliceOfN(rapid.IntRange(0, 300), 0, 4).Draw(t, "c")}
+	},
+	Run: func(c c17PkgCase, x *vh.Ctx) *vh.Failure {
+		// an instance created before the package-level registrations happen, and one created after
+		before := &plenc.Plenc{}
+		before.RegisterDefaultCodecs()
+		c17PkgOnce.Do(func() {
+			plenc.RegisterCodec(reflect.TypeOf(c17PkgPlain{}), c17PkgCodec{k: 5, typ: reflect.TypeOf(c17PkgPlain{})})
+			plenc.RegisterCodecWithTag(reflect.TypeOf(c17PkgTagged{}), "c17pkg", c17PkgCodec{k: 9, typ: reflect.TypeOf(c17PkgTagged{})})
+		})
+		h := c17PkgHolder{A: c17PkgPlain{c.A}, B: c17PkgTagged{c.B}}
+		for _, n := range c.C {
+			h.C = append(h.C, c17PkgPlain{n})
+		}
+		got, err := plenc.Marshal(nil, &h)
+		if err != nil {
+			return vh.Fail("C17/package-level-registration-unused", "package-level Marshal after package-level RegisterCodec / RegisterCodecWithTag: %v", err)
+		}
+		want := binary.AppendUvarint([]byte{0x08}, uint64(c.A+5))
+		want = binary.AppendUvarint(append(want, 0x10), uint64(c.B+9))
+		if len(c.C) > 0 {
+			var body []byte
+			for _, n := range c.C {
+				body = binary.AppendUvarint(body, uint64(n+5))
+			}
+			want = binary.AppendUvarint(append(want, 0x1a), uint64(len(body)))
+			want = append(want, body...)
+		}
+		if !bytes.Equal(got, want) {
+			return vh.Fail("C17/package-level-registration-unused", "package-level Marshal % x, expected % x (codecs registered through the package-level functions)", got, want)
+		}
+		var back c17PkgHolder
+		if err := plenc.Unmarshal(got, &back); err != nil || !reflect.DeepEqual(back, h) {
+			return vh.Fail("C17/package-level-registration-unused", "package-level Unmarshal: %v, %+v", err, back)
+		}
+		// instances do not see it: there both types are plain structs (an option without a codec of its
+		// own on a struct-typed field falls back to the struct's codec)
+		for name, p := range map[string]*plenc.Plenc{"earlier": before, "later": func() *plenc.Plenc { p := &plenc.Plenc{}; p.RegisterDefaultCodecs(); return p }()} {
+			ib, err := p.Marshal(nil, &h)
+			if err != nil {
+				return vh.Fail("C17/instance-marshal-error", "%s instance: %v", name, err)
+			}
+			if bytes.Equal(ib, got) {
+				return vh.Fail("C17/registration-leaked-to-instance", "%s instance encodes the holder as % x, exactly what the package-level codecs produce", name, ib)
+			}
+			var iback c17PkgHolder
+			if err := p.Unmarshal(ib, &iback); err != nil || iback.A != h.A || iback.B != h.B || len(iback.C) != len(h.C) {
+				return vh.Fail("C17/instance-roundtrip", "%s instance: %v, %+v", name, err, iback)
+			}
+			pl := c17PkgPlain{c.A}
+			b, err := p.Marshal(nil, &pl)
+			wantPlain := []byte(nil)
+			if c.A != 0 {
+				wantPlain = binary.AppendUvarint([]byte{0x08}, uint64(int64(c.A)<<1))
+			}
+			if err != nil || !bytes.Equal(b, wantPlain) {
+				return vh.Fail("C17/registration-leaked-to-instance", "%s instance encodes c17PkgPlain{%d} as % x (%v), expected the plain struct encoding % x", name, c.A, b, err, wantPlain)
+			}
+		}
+		x.NonTrivial()
+		return nil
+	},
+}
+
+func TestC17PackageLevelRegistration(t *testing.T) { c17Pkg.Check(t, vh.N(2000, 10000)) }
